@@ -89,7 +89,11 @@ def valid_id(rng, nbytes):
     lo = 1 << (7 * nbytes)
     while True:
         v = lo + rng.randrange(0, lo - 1)  # data bits not all ones
-        if v & (lo - 1):
+        if nbytes >= 2 and rng.random() < 0.3:
+            # ids with 0x00 / 0xFF bytes after the first one (0x4200, 0x10000081, 0x42ff): byte-wise id handling shows there
+            k = rng.randrange(0, nbytes - 1)
+            v = (v & ~(0xFF << (8 * k))) | (rng.choice([0x00, 0x00, 0xFF]) << (8 * k))
+        if v & (lo - 1) and (v & (lo - 1)) != lo - 1:
             return v
 
 
